@@ -130,11 +130,32 @@ func runMidicatHistory(c *mon.Ctx, r *mon.Rand, idx int64) {
 		c.Violation("mc:"+class, msg, desc, want, got)
 	}
 
-	// ---- open (idempotent)
+	// ---- open (idempotent). In every third history the first Open calls are made by a goroutine that is
+	// wired to its OS thread (runtime.LockOSThread, as GUI / audio / cgo code does) and ends without
+	// unlocking: the Go runtime then destroys that thread. Ports opened that way must stay usable.
+	dyingThread := idx%3 == 1
+	desc["first_open_from_a_locked_goroutine_that_exits"] = dyingThread
 	for p := 0; p < nports; p++ {
 		for k := 0; k < 2; k++ {
 			var e1, e2 error
-			if !guarded(c, h, "in.Open", func() { e1 = ins[p].Open() }) || !guarded(c, h, "out.Open", func() { e2 = outs[p].Open() }) {
+			okOpen := true
+			open := func() {
+				okOpen = guarded(c, h, "in.Open", func() { e1 = ins[p].Open() }) && guarded(c, h, "out.Open", func() { e2 = outs[p].Open() })
+			}
+			if dyingThread && k == 0 {
+				done := make(chan struct{})
+				go func() {
+					runtime.LockOSThread()
+					defer close(done)
+					open()
+				}()
+				<-done
+				time.Sleep(5 * time.Millisecond) // let the runtime dispose of the thread
+				c.Count("mc_opens_from_dying_thread", 1)
+			} else {
+				open()
+			}
+			if !okOpen {
 				return
 			}
 			if e1 != nil || e2 != nil {
@@ -636,7 +657,10 @@ func checkMidicatHistory(c *mon.Ctx, h *hist, desc map[string]any, nports int) {
 		// (i) aspect check on the whole window (unique values, sequential consumer): a FIFO history is
 		// linearizable iff no value is dequeued twice or without enqueue (checked above) and there is no
 		// pair a, b with enq(a) entirely before enq(b) but b delivered before a.
-		type pr struct{ enqCall, enqRet, deq int64; id int }
+		type pr struct {
+			enqCall, enqRet, deq int64
+			id                   int
+		}
 		var prs []pr
 		for i := 0; i+1 < len(ops); i += 2 {
 			prs = append(prs, pr{ops[i].Call, ops[i].Return, ops[i+1].Call, ops[i+1].Output.(int)})
